@@ -3,7 +3,7 @@ import vlib, common
 RULE = ("histories of 1..70 events (quick) / ..200 (thorough), random Add/AddBulk split, random write-cache size; "
         "ALL pairs (i<=j): incremental proof + verification, ALL (index<=version): membership proof + verification; "
         "on a sample of pairs every single-entry alteration, a dropped entry, altered versions (neighbours, 0, n, 2^63, 2^64-1), "
-        "digests of other versions and of a forked log. distinct = distinct (kind,n,i,j); non-trivial = audit path with >1 (incr) / >0 (memb) entries")
+        "digests of other versions and of a forked log; plus the balloon command: Balloon.QueryConsistency on random (s, e) including the newest version, out-of-range and reversed pairs, answers and verdicts compared with the model. distinct = distinct (kind,n,i,j); non-trivial = audit path with >1 (incr) / >0 (memb) entries")
 
 
 def run(v, tier, seed, replay):
@@ -21,6 +21,21 @@ def run(v, tier, seed, replay):
                         dict(kind="correspondence", theorem="C03_* (History/HistModel.v vs balloon/history)", mismatches=mism, seed=seed, tier=tier), no_input=True)
     finally:
         s.cleanup()
+    # the balloon-level entry point (Balloon.QueryConsistency: range validation, locking) on the same kind of logs
+    import re
+    nviol = len(v.violations)
+    s2, res2 = common.harness(v, "C03", "core", "balloon", tier, seed)
+    try:
+        common.absorb(v, res2, RULE)
+        v.violations = [x for x in v.violations if x["signature"].startswith("C03")]
+        mism2 = common.model_compare(v, s2, res2)
+        cons = re.findall(r"\((\d+)%N, 3\d\d\d%N\)", mism2)
+        v.coverage["model_vs_impl_mismatches_balloon_consistency"] = "[]" if not cons else mism2
+        if cons and len(v.violations) == nviol:
+            v.violation("C03:correspondence:balloon", "Balloon.QueryConsistency answers differ from the model (case, [(step, 3000+class)]): %s" % mism2[:300],
+                        dict(kind="correspondence", theorem="C03_incremental_complete via Balloon.query_consistency (Balloon/Balloon.v vs balloon/balloon.go)", mismatches=mism2, seed=seed, tier=tier), no_input=True)
+    finally:
+        s2.cleanup()
     v.coverage["trusted_base"] = vlib.TRUSTED_COMMON + [
         "premise H_inj (hash injective on the seven structured input formats) in the soundness theorems; satisfiable (term instance); SHA-256 collision resistance and unambiguity of the byte concatenation are what it stands for",
         "modelled rather than verified: crypto/sha256 (Gallina SHA-256 in Base/Sha256.v compared byte-for-byte on every run), storage/bplus as the node store, Go map semantics of AuditPath"]
